@@ -113,6 +113,14 @@ func RunBatch(t *testing.T, world WorldFunc, c BatchConfig) *Summary {
 			os.WriteFile(c.Out+".cur", []byte(fmt.Sprint(seed)), 0o644)
 		}
 		o := SafeRun(t, world, spec)
+		if o.Infra != "" && strings.Contains(o.Infra, "blocked goroutines remain") {
+			// a run is a pure function of its seed: a task that the machine's load made look stuck does not look stuck
+			// again, a wait that the code under test really never ends does. One repeat tells them apart.
+			o = SafeRun(t, world, spec)
+			if n, _ := sum.Extra["runs_repeated_after_a_stuck_task"].(int); true {
+				sum.Extra["runs_repeated_after_a_stuck_task"] = n + 1
+			}
+		}
 		sum.Runs++
 		if len(sum.Seeds) == 0 {
 			sum.Seeds = []uint64{seed, seed}
